@@ -1090,7 +1090,7 @@ pub fn c12() -> Simple {
     Simple {
         id: "C12",
         decided_by: "schedules (arrival x read chunking); invariant evaluated at every read()",
-        rule_text: "one run = a conversation under lock-step / batched / up-front arrival and seeded chunking; invariant at every transport read: every command whose bytes were completely delivered has a complete response in the flushed output and nothing is written-but-unflushed when the server has consumed all released bytes; lock-step runs must end with every command answered. Distinct = plan signature (includes arrival and chunking personality).",
+        rule_text: "one run = a conversation under lock-step / batched / up-front arrival and seeded chunking; invariant at every transport read: every command whose bytes were completely delivered has a complete response in the flushed output and nothing is written-but-unflushed when the server has consumed all released bytes; lock-step runs must end with every command answered. One run in ten contains an EXECUTE / SEND_LONG_DATA for a statement id that is not open; one in seven fails one transport call once (Interrupted / WouldBlock / TimedOut / BrokenPipe at a seeded operation or at the n-th flush): the invariant holds whatever the server makes of it. Distinct = plan signature (includes arrival and chunking personality).",
         quick: 300_000,
         thorough: 8_000_000,
         budget_q: 60,
